@@ -60,7 +60,7 @@ def main():
         meta["ran"].append(f"demo with the change: exit {rc1}: {out1.strip().splitlines()[-1][:160] if out1.strip() else ''}")
         suite = "skipped"
         if not a.skip_suite:
-            rcs, outs = sh([PY, "-m", "pytest", "-q", "-p", "no:cacheprovider", "--timeout=900", "-n", "6", "--no-cov"], cwd=wt, timeout=1800)
+            rcs, outs = sh([PY, "-m", "pytest", "-ra", "-q", "-p", "no:cacheprovider", "--timeout=900", "--continue-on-collection-errors"], cwd=wt, timeout=1800)  # the baseline command (sequential)
             m = re.findall(r"^.*\d+ passed.*$|^.*\d+ failed.*$", outs, re.M)
             suite = m[-1].strip() if m else (outs.strip().splitlines() or [""])[-1]
             meta["ran"].append(f"test suite with the change: rc={rcs} {suite}")
